@@ -36,7 +36,7 @@ func alignTree(real *yqlib.ExpressionNode, spec M, out map[*yqlib.ExpressionNode
 	}
 	out[real] = spec
 	switch opOf(spec) {
-	case "SET_PATH": // setpath(p; v): the arguments are a BLOCK on the right
+	case "SET_PATH", "WITH": // setpath(p; v), with(p; u): the arguments are a BLOCK on the right
 		if real.RHS == nil || real.RHS.Operation.OperationType.Type != "BLOCK" {
 			return false
 		}
@@ -80,7 +80,13 @@ func itemOf(n, root *yqlib.CandidateNode) (M, bool) {
 		if p.Kind == yqlib.MappingNode {
 			if idx%2 == 0 { // a key node
 				v := alpha(n)
-				return M{"in": false, "v": v.toSpec(), "sub": []interface{}{}}, !v.hasForeign()
+				it := M{"in": false, "v": v.toSpec(), "sub": []interface{}{}}
+				if cur == n && idx+1 < len(p.Content) && n.Kind == yqlib.ScalarNode && v.K == "str" { // the key of an entry of the document: Eval.tla's KeyItem
+					if ent, ok := itemOf(p.Content[idx+1], root); ok && ent["in"] == true {
+						it["keyat"] = ent["p"]
+					}
+				}
+				return it, !v.hasForeign()
 			}
 			steps = append([]interface{}{M{"t": "k", "key": atomsOf(p.Content[idx-1].Value)}}, steps...)
 		} else {
